@@ -259,3 +259,41 @@ func (tb *Table) normalize(t *Term) *Term {
 	}
 	return t
 }
+
+// upperBound returns 2^k-1 where k is the number of bits below the known
+// leading zero bits of t (from the slice normal form).
+func (tb *Table) upperBound(t *Term) (uint64, bool) {
+	if t.S.K != BV || t.S.W > 64 {
+		return 0, false
+	}
+	if t.IsConst() {
+		return t.Val, true
+	}
+	if t.Op == "ite" {
+		a, ok1 := tb.upperBound(t.Args[1])
+		b, ok2 := tb.upperBound(t.Args[2])
+		if ok1 && ok2 {
+			if a > b {
+				return a, true
+			}
+			return b, true
+		}
+		return 0, false
+	}
+	ps := tb.pieces(t)
+	lead := 0
+	for _, p := range ps {
+		if p.t != nil {
+			break
+		}
+		lead += p.w()
+	}
+	if lead == 0 {
+		return 0, false
+	}
+	k := t.S.W - lead
+	if k >= 64 {
+		return 0, false
+	}
+	return (uint64(1) << uint(k)) - 1, true
+}
